@@ -66,7 +66,7 @@ struct Interp {
   std::set<std::string> calleesSeen; // non-inlined Fastor callees entered
   std::vector<std::string> abnormal;  // guards of abnormal terminations (throw / abort / unreachable)
   bool abnormalUnconditional = false;
-  long merges = 0, symbolicBranches = 0, masked = 0;
+  long merges = 0, symbolicBranches = 0, masked = 0, layoutAssumed = 0;
   std::map<const llvm::GlobalVariable *, int> gmap;
   std::string repoPrefix = "/repo/";
 
